@@ -291,6 +291,7 @@ func c18Pair(r *Run, x, y *val.Val, sameByConstruction bool) {
 		return
 	}
 	what := fmt.Sprintf("%s  vs  %s", ValSx(x), ValSx(y))
+	r.Mark("equality / rendering / key / set membership of " + what)
 	if len(what) > 600 {
 		what = what[:600] + "..."
 	}
